@@ -1621,12 +1621,24 @@ func (sc *serverConn) processData(f *DataFrame) error {
 
 	// Sender sending more than they'd declared?
 	if st.declBodyBytes != -1 && st.bodyBytes+int64(len(data)) > st.declBodyBytes {
+		// RFC 7540, sec 6.9: the frame counts against the connection-level
+		// window even though the stream is in error.
+		if sc.inflow.available() < int32(f.Length) {
+			errMsg := "connection-level flow control window error"
+			return StreamError{id, ErrCodeFlowControl, errMsg}
+		}
 		err := fmt.Errorf("sender tried to send more than declared Content-Length of %d bytes", st.declBodyBytes)
 		st.body.CloseWithError(err)
 		// RFC 7540, sec 8.1.2.6: A request or response is also malformed if the
 		// value of a content-length header field does not equal the sum of the
 		// DATA frame payload lengths that form the body.
-		return StreamError{id, ErrCodeProtocol, err.Error()}
+		sc.resetStream(StreamError{id, ErrCodeProtocol, err.Error()})
+		// We are not going to consume the frame: deduct it from the
+		// connection-level window and return its octets at once (after the
+		// RST_STREAM), otherwise the peer's connection window shrinks for good.
+		sc.inflow.take(int32(f.Length))
+		sc.sendWindowUpdate(nil, int(f.Length))
+		return nil
 	}
 	if f.Length > 0 {
 		// Check whether the client has flow control quota.
